@@ -408,6 +408,9 @@ def run(ctx):
     # a value remembered for later calls is keyed by every argument it depends on (nqsa/memo.py)
     from .. import memo
     memo.check(ctx, "C14.K", ['netqasm.sdk.memmgr', 'netqasm.sdk.futures'])
+    # no type test that an earlier type test has already decided (a subclass tested after its base class: nqsa/shadow.py)
+    from .. import shadow
+    shadow.check(ctx, "C14.H", ['netqasm.sdk.memmgr', 'netqasm.sdk.futures'])
 
 
 B = "netqasm/sdk/builder.py"
